@@ -24,6 +24,7 @@ type connPool struct {
 	active      int
 	mu          sync.Mutex
 	idleTimeout time.Duration
+	closed      bool // set by Shutdown: the pool is no longer registered, nothing may be parked in it
 }
 
 // pooledConn wraps a connection with metadata
@@ -102,6 +103,14 @@ func (p *WebSocketPool) Put(backend string, conn net.Conn) bool {
 
 	if pool.active > 0 {
 		pool.active--
+	}
+
+	// Shutdown ran between the lookup above and here: this pool has been
+	// emptied and dropped from the registry. A connection parked in it now
+	// would never be handed out again and never be closed.
+	if pool.closed {
+		_ = conn.Close()
+		return false
 	}
 
 	// Don't exceed max idle connections
@@ -235,6 +244,7 @@ func (p *WebSocketPool) Shutdown() {
 			_ = pc.conn.Close() // Best effort close, ignore error
 		}
 		pool.idle = nil
+		pool.closed = true
 		pool.mu.Unlock()
 
 		logging.L().Info().
